@@ -225,6 +225,37 @@ def tp_cases(draw, tier):
     return {"d": draw(mixed_circuits(tier, trace_preserving=True))}
 
 
+@st.composite
+def weighted_cases(draw, tier):
+    """ A trace-preserving circuit times a real weight (a mixed scalar, as in
+    the terms of a parameter-shift gradient): negative weights included. """
+    spec = draw(mixed_circuits(tier, trace_preserving=True, max_boxes=5))
+    w = draw(st.sampled_from([-1, -0.5, 0.5, 2, -2]))
+    i = draw(st.integers(0, len(spec["layers"])))
+    off = draw(st.integers(0, len(specs.scans(spec)[i])))
+    layers = [list(l) for l in spec["layers"]]
+    layers.insert(i, [{"k": "g", "g": "scalar", "a": [w, 0],
+                       "mixed": True}, off])
+    return {"d": dict(spec, layers=layers), "w": w}
+
+
+def check_weighted(case):
+    spec, w = case["d"], case["w"]
+    d = specs.build(spec)
+    closed = init_and_discard_spec(spec)
+    ref = qsem.distribution(closed)
+    n = len(specs.spec_cod(closed))
+    require(abs(ref.sum() - w) < 1e-9, "C12:reference-not-normalised",
+            "harness reference sums to {} not {}".format(ref.sum(), w))
+    same(bit_tensor(d.get_counts(), n), ref, "counts-vs-reference",
+         common.show(d))
+    same(d.init_and_discard().eval(mixed=True).array, ref,
+         "evaluation-vs-reference", common.show(d))
+    same(d.measure(mixed=True), ref, "measure-mixed-vs-reference",
+         common.show(d))
+    return dict(nt=w < 0, labels=["weight%s" % w], show=common.show(d, 200))
+
+
 def bit_tensor(counts, n):
     arr = np.zeros((2,) * n or (), dtype=complex)
     for bits, value in counts.items():
@@ -359,6 +390,10 @@ core.register("C12", [
           shards_quick=4, rule="preparations, unitaries, measurements, "
           "discards, stochastic classical gates: get_counts / measure / "
           "evaluation are one probability distribution, equal to O6"),
+    Facet("weighted", weighted_cases, check_weighted, n_quick=200,
+          shards_quick=4, rule="a trace-preserving circuit times a real "
+          "weight: get_counts / measure / evaluation are that multiple of "
+          "the distribution; non-trivial = a negative weight"),
     Facet("born", born_cases, check_born, n_quick=200, shards_quick=2,
           rule="state >> Measure(n) = |amplitude|^2; Discard = marginal"),
 ], selftests=[selftest], rule=RULE, assumptions=[
